@@ -104,7 +104,7 @@ def chain(r1: int, r2: int, r3: int, i0: int, i1: int, i2: int, i3: int, u0: int
           p0: Optional[int], p1: Optional[int], p2: Optional[int], p3: Optional[int]) -> bool:
     """
     pre: 0 <= r1 <= 1 and 0 <= r2 <= 1 and 0 <= r3 <= 1
-    pre: 0 <= i0 <= 4 and 0 <= i1 <= 4 and 0 <= i2 <= 4 and 0 <= i3 <= 4
+    pre: 0 <= i0 <= 12 and 0 <= i1 <= 12 and 0 <= i2 <= 12 and 0 <= i3 <= 12
     pre: 0 <= u0 <= 4 and 0 <= u1 <= 4 and 0 <= u2 <= 4 and 0 <= u3 <= 4
     pre: (p0 is None or 0 <= p0 <= 4) and (p1 is None or 0 <= p1 <= 4) and (p2 is None or 0 <= p2 <= 4) and (p3 is None or 0 <= p3 <= 4)
     post: _
@@ -119,9 +119,10 @@ def chain(r1: int, r2: int, r3: int, i0: int, i1: int, i2: int, i3: int, u0: int
         return True
     if n < 2 and not (r1 == 0 and i1 == 0 and u1 == 0 and p1 is None):
         return True
-    for x in (i0, i1, i2, i3, u0, u1, u2, u3):
+    for x in (u0, u1, u2, u3):  # uuid stand-ins are hashed (set of patch uuids): small domain
         if x > n:
             return True
+    # patch indices stay symbolic in 0..12 (two-digit values included: ordering must be numeric)
     for x in (p0, p1, p2, p3):
         if x is not None and x > n:
             return True
